@@ -161,13 +161,6 @@ func (vc *VC) memInit(key, sort string) Term {
 	name = "|" + name + "|"
 	if !vc.sc.declSet[name] {
 		vc.sc.DeclConst(name, vc.memSorts[key])
-		// the entry-state memory holds only references to objects that existed at entry
-		switch vc.memSorts[key] {
-		case "(Array Ref Ref)":
-			vc.sc.Axiom(fmt.Sprintf("(forall ((?ea Ref)) (! (< (birth (root (select %s ?ea))) 0) :pattern ((select %s ?ea))))", name, name))
-		case "(Array Ref Slice)":
-			vc.sc.Axiom(fmt.Sprintf("(forall ((?ea Ref)) (! (< (birth (root (s-ptr (select %s ?ea)))) 0) :pattern ((select %s ?ea))))", name, name))
-		}
 	}
 	return name
 }
@@ -222,7 +215,17 @@ func (vc *VC) noteAddr(key string, a Term) {
 func (vc *VC) rawLoad(st *State, key, sort string, a Term) Term {
 	m := vc.getMem(st, key, "(Array Ref "+sort+")")
 	vc.noteAddr(key, a)
-	return sx("select", m, a)
+	v := sx("select", m, a)
+	if strings.HasSuffix(m, "@0|") && !strings.Contains(a, "?") {
+		// the entry-state memory holds only references to objects that existed at entry
+		switch sort {
+		case "Ref":
+			vc.sc.Axiom(sx("<", sx("birth", sx("root", v)), "0"))
+		case "Slice":
+			vc.sc.Axiom(sx("<", sx("birth", sx("root", sx("s-ptr", v))), "0"))
+		}
+	}
+	return v
 }
 
 func (vc *VC) rawStore(st *State, key, sort string, a, v Term) {
